@@ -2,6 +2,7 @@ import LunaVerif.Core.Proto
 import LunaVerif.Model.Periph.Ila
 import LunaVerif.Model.Periph.IlaStream
 import LunaVerif.Model.Periph.IlaSpi
+import LunaVerif.Model.Periph.IlaUart
 open LunaVerif LunaVerif.Proto LunaVerif.Ila
 
 /-- which class is being co-simulated (first config int) -/
@@ -9,12 +10,16 @@ inductive DState
   | core   (c : Config) (s : Ila.State)
   | stream (c : Config) (s : IlaStream.State)
   | spi    (c : IlaSpi.Config) (s : IlaSpi.State)
+  | uart   (c : IlaUart.Config) (s : IlaUart.State)
 
 /-- config line: `# kind depth pretrigger` (kind 0 = IntegratedLogicAnalyzer, 1 = StreamILA).
 kind 0: input line `trigger inputs captured_sample_number`, output line `sampling complete captured_sample`;
 kind 1: input line `trigger inputs stream.ready`, output line `sampling complete valid payload first last`;
 kind 2 (SyncSerialILA): config line `# 2 depth pretrigger bits_per_word clock_polarity clock_phase`,
-input line `trigger inputs sck sdi cs`, output line `sampling complete sdo`. -/
+input line `trigger inputs sck sdi cs`, output line `sampling complete sdo`;
+kind 3 (AsyncSerialILA): config line `# 3 depth pretrigger divisor bytes_per_sample`, input line `trigger inputs`,
+output line `sampling complete tx stream.valid stream.ready stream.payload` (the last three are the internal stream
+between the StreamILA and the UART transmitter). -/
 def main : IO Unit :=
   runDriver (σ := DState)
     (fun cfg =>
@@ -23,6 +28,9 @@ def main : IO Unit :=
       else if fld cfg 0 = 2 then
         let cc : IlaSpi.Config := ⟨c, ⟨fld cfg 3, n2b (fld cfg 4), n2b (fld cfg 5), true, false⟩⟩
         .spi cc (IlaSpi.init cc)
+      else if fld cfg 0 = 3 then
+        let cu : IlaUart.Config := ⟨c, fld cfg 3, fld cfg 4⟩
+        .uart cu (IlaUart.init cu)
       else .core c (init c))
     (fun st i =>
       match st with
@@ -34,4 +42,7 @@ def main : IO Unit :=
         (.stream c s', [b2n o.sampling, b2n o.complete, b2n o.valid, o.payload, b2n o.first, b2n o.last])
       | .spi c s =>
         let (s', o) := IlaSpi.step c s ⟨n2b (fld i 0), fld i 1, n2b (fld i 2), n2b (fld i 3), n2b (fld i 4)⟩
-        (.spi c s', [b2n o.sampling, b2n o.complete, b2n o.sdo]))
+        (.spi c s', [b2n o.sampling, b2n o.complete, b2n o.sdo])
+      | .uart c s =>
+        let (s', o) := IlaUart.step c s ⟨n2b (fld i 0), fld i 1⟩
+        (.uart c s', [b2n o.sampling, b2n o.complete, b2n o.tx, b2n o.valid, b2n o.ready, o.payload]))
